@@ -119,6 +119,13 @@ fn explicit_case(case: u64, rng: &mut Rng, rep: &mut Report) {
         _ => None,
     };
     let cfg = ExecCfg { threads: 1, merge_policy: false, sort: sort.clone(), budget_per_thread: 15_000_000 };
+    // a third of the cases write multi-block doc stores (block size 24..400 bytes): unsorted
+    // merges of segments without deletes then stack compressed blocks instead of copying
+    // documents, merges with deletes or sorting re-read across block borders
+    let mut r2 = Rng::new(case ^ 0x0b10_c5b1_0c4b);
+    let blocksize = if r2.chance(1, 3) { *r2.pick(&[24usize, 64, 160, 400]) } else { 0 };
+    set_docstore_blocksize(blocksize);
+    rep.observe("docstore_blocksize", if blocksize == 0 { "default".to_string() } else { blocksize.to_string() });
     let mut ex = match Exec::create(Box::new(RamDirectory::create()), cfg.clone(), None) {
         Ok(e) => e,
         Err(e) => {
